@@ -176,7 +176,8 @@ def incomparable_sig(msg, sims, edges, groups):
     scn = {"sims": [{"sid": s} for s in sims],
            "conns": [{"src": e[0], "dst": e[1], "shift": 1 if e[2] == "shift" else 0, "weak": e[2] == "weak"}
                      for e in edges]}
-    if d1 and d2 and reftime.ref_rel(d1, d2) is None and reftime.incomparable_paths(scn, groups, (d1, d2)):
+    if ((d1 and d2 and reftime.ref_rel(d1, d2) is None and reftime.incomparable_paths(scn, groups, (d1, d2)))
+            or (not (d1 and d2) and reftime.incomparable_paths(scn, groups))):
         return "C06.error|AssertionError:incomparable|two_paths_genuinely_incomparable"
     return "C06.error|AssertionError:incomparable|not_confirmed_by_reference"
 
